@@ -422,3 +422,20 @@ def finish(prop, results, t_start, design_ref, bounds, outside, assumptions, ext
     print(f"{prop} tier={tier()} obligations={n_obl} discharged={discharged} {by_how} known={n_known} violations={len(viol)} "
           f"inconclusive={len(inconclusive) + len(unrep) + len(errors)} paths={cov['paths']} queries={queries} solver_time={solver_time:.1f}s wall={time.time() - t_start:.1f}s -> exit {status}")
     return status
+
+
+# ----------------------------------------------------------------------------- recompiling a function from its current source
+def recompile(fn, transformer, extra_globals=None, name_suffix="transformed"):
+    """the real function, recompiled from its CURRENT source after an AST transformation (stated in the evidence as a stub);
+    globals are those of the defining module (so a proxied `np` is picked up), optionally overridden."""
+    import ast, inspect, textwrap
+    src = textwrap.dedent(inspect.getsource(fn))
+    tree = ast.parse(src)
+    tree = ast.fix_missing_locations(transformer.visit(tree))
+    tree.body[0].decorator_list = []
+    mod = inspect.getmodule(fn)
+    ns = dict(mod.__dict__)
+    if extra_globals:
+        ns.update(extra_globals)
+    exec(compile(tree, f"<{fn.__qualname__} {name_suffix}>", "exec"), ns)
+    return ns[fn.__name__]
